@@ -1248,3 +1248,7 @@ package whispertool
 //@   props C19
 //@   requires a.secondsPerPoint > 0 && 0 <= a.secondsPerPoint * a.numberOfPoints && a.secondsPerPoint * a.numberOfPoints <= 2147483647 && a.numberOfPoints <= 2147483647
 //@   ensures any: true
+
+// generated enum name table (a map: outside gowp's subset) - ASSUMED to map names to their constants
+//@ func AggregationMethodString
+//@   trusted
